@@ -26,7 +26,7 @@ def _impl():
 PROFILES = {
     # per property: generator settings and the option sets to run
     "default": dict(gen=dict(), options=[dict()]),
-    "C01": dict(gen=dict(kw_rate=0.03, docs=0.5, test_dirs=True),
+    "C01": dict(gen=dict(kw_rate=0.03, docs=0.5, test_dirs=True, aliases=0.4),
                 options=[dict(style=s, test_run=t, convert=c, tsp=p, tsw=w) for s, t, c, p, w in
                          [("plaintext", False, False, "CODE", "WARN"), ("numpydoc", True, True, "DOCSTRING", "IGNORE"),
                           ("google", False, True, "CODE", "IGNORE"), ("rest", True, False, "DOCSTRING", "WARN")]]),
@@ -43,7 +43,7 @@ PROFILES = {
     "C20": dict(gen=dict(docs=0.0), options=[dict()]),
     "C14": dict(gen=dict(docs=1.0, doc_types="mixed", infer_returns=0.1), styles=["numpydoc", "google", "rest"],
                 options=[dict(tsp=p, tsw=w) for p in ("CODE", "DOCSTRING") for w in ("WARN", "IGNORE")]),
-    "C17": dict(gen=dict(private_rate=0.45, docs=0.0), options=[dict()]),
+    "C17": dict(gen=dict(private_rate=0.45, docs=0.0, chains=0.5), options=[dict(), dict(convert=True)]),
     "C09": dict(gen=dict(kw_rate=0.1, docs=0.3), options=[dict(convert=False), dict(convert=True)]),
     "C16": dict(gen=dict(docs=0.3), options=[dict(), dict(convert=True)], twice=True),
 }
